@@ -324,6 +324,41 @@ Definition prefilter_ok (pf : option (list bytes)) (sp : spec) : bool :=
   | Some l => forallb (allowed l) (allow_main sp) && forallb (allowed l) (allow_pp sp)
   end.
 
+(* --- which arguments are hashed (c.rs generate_hash_key): both keys get a CONCATENATION of lists of the parsed
+   request, translated into the_flow_c / the_flow_p *)
+Inductive seg :=
+| SPre          (* parsed_args.preprocessor_args *)
+| SArch         (* parsed_args.arch_args: the (-arch, architecture) pairs in the order of the command line *)
+| SCommon       (* parsed_args.common_args *)
+| SProfile      (* the absolute object path, for -fprofile-generate / --coverage builds *)
+| SCwd          (* the working directory, unless hash_working_directory is off *)
+| SOther.       (* anything else: a list that is sorted, de-duplicated, filtered, computed ... *)
+
+Record parsed := {
+  pa_pre : list bytes;
+  pa_arch : list bytes;
+  pa_common : list bytes;
+  pa_profile : option bytes;
+  pa_cwd : option bytes
+}.
+
+Definition opt_list (o : option bytes) : list bytes := match o with Some x => [x] | None => [] end.
+
+Definition seg_args (p : parsed) (s : seg) : list bytes :=
+  match s with
+  | SPre => pa_pre p
+  | SArch => pa_arch p
+  | SCommon => pa_common p
+  | SProfile => opt_list (pa_profile p)
+  | SCwd => opt_list (pa_cwd p)
+  | SOther => []
+  end.
+
+Definition hashed_args (flow : list seg) (p : parsed) : list bytes := concat (map (seg_args p) flow).
+
+Definition expected_flow_c : list seg := [SCommon; SArch; SProfile].
+Definition expected_flow_p : list seg := [SPre; SArch; SCommon; SProfile; SCwd].
+
 Definition spec_good (sp : spec) : Prop :=
   shape_c sp = expected_shape_c /\ shape_p sp = expected_shape_p /\ tags_ok sp = true /\ allow_ok sp = true.
 
